@@ -146,6 +146,11 @@ func (p *FSM) Open(_ <-chan struct{}) (uint64, error) {
 	var dbdir string
 	if rp.IsNewRun(p.fs, p.dirname) {
 		dbdir = filepath.Join(p.dirname, randomDir)
+		// Create the DB directory before its name is published, a crash in between must not
+		// leave the current file pointing to a directory that does not exist.
+		if err := p.fs.MkdirAll(dbdir, 0o755); err != nil {
+			return 0, err
+		}
 		if err := rp.SaveCurrentDBDirName(p.fs, p.dirname, randomDir); err != nil {
 			return 0, err
 		}
